@@ -22,6 +22,7 @@ def _variants(work, failures):
         "MCChanProto": ["chan_var_wake", "chan_var_rearm", "chan_var_droporder", "chan_kf_rendezvous"],
         "MCExecProto": ["exec_var_swap"],
         "MCSignalProto": ["sig_var_swap", "sig_var_notify"],
+        "TimerPing": ["tping_var"],
     }
     n = 0
     for mod, cfgs in groups.items():
